@@ -35,7 +35,12 @@ func H_rendererr(depth, L int, sameNS bool) {
 			case 0:
 				src += "  t{$x.nope.deeper}\n"
 			default:
-				src += "  t{call " + ns + ".d" + strconv.Itoa(depth) + " /}\n"
+				if k%2 == 1 {
+					// the call tag spans several lines: the command is where it begins
+					src += "  t{call " + ns + ".d" + strconv.Itoa(depth) + "\n      data=\"all\"\n  }{param zz}\n  x\n  {/param}\n  {/call}\n"
+				} else {
+					src += "  t{call " + ns + ".d" + strconv.Itoa(depth) + " /}\n"
+				}
 			}
 		} else {
 			// (non-ASCII text before the failing command: positions are byte offsets)
